@@ -75,8 +75,9 @@ func vGenPayload(r *vRand) ([]byte, string, string) {
 		return []byte{0}, "zero", ""
 	case 7:
 		sizes := []int{127, 128, 16383, 16384, 16385}
-		if vThorough() {
-			sizes = append(sizes, 2097151, 2097152, 2097153)
+		if vThorough() && r.Intn(10) == 0 {
+			// the boundary of the four-byte length prefix; rare, because a 2 MB byte list costs the evaluator gigabytes
+			sizes = []int{2097151, 2097152, 2097153}
 		}
 		n, k, c := sizes[r.Intn(len(sizes))], 1+r.Intn(255), r.Intn(256)
 		return vPat(n, k, c), "varint-edge", vCoqPat(n, k, c)
